@@ -35,6 +35,8 @@ NAMEFORMS = [(None, "q1"), ("s", "q1"), (None, '"Q1"'), ('"S"', '"Q1"'), ("s", '
              # names that begin with a statement-level word (only as a prefix)
              ("settings", "dropped_rows_seq"), ("created", "set_seq"), (None, "alter_ids"), ("gone", "used_seq"),
              # schema-qualified names spelled like the sequence option keywords
+             # names that begin with the letters of a type keyword
+             (None, "array_ids"), ("Arrays", "slot_seq"), (None, "ARRAY_IDS"), ("ARRAYS", "Q1"), ("s", "ARRAY_IDS"), (None, "enum_seq"), (None, "MAP_SEQ"),
              ("sales", "order"), ("app", "cache"), ("public", "start"), ("dev", "no"), ("x", "increment"), ("x", "minvalue")]
 TAB_BEFORE = "CREATE TABLE tb (increment int, start int, cache int DEFAULT 3);"
 TAB_AFTER = "CREATE TABLE ta (cache int, minvalue int, maxvalue int, no int, noorder int);"
